@@ -80,7 +80,9 @@ LNewTerm(e) == LET s == Get(e.i) IN
 LBecome(e) == LET s == Get(e.i) IN
     /\ s.kind = "L"
     /\ e.ok = (s.status = "FENCED" /\ e.req = s.term)
-    /\ IF e.ok THEN inst' = Put(e.i, [s EXCEPT !.status = "LEADER", !.alloc = e.head, !.synced = e.head, !.apply = e.head])
+    \* C02/C01: the node serves only when the log it was elected with is committed on a quorum
+    /\ IF e.ok THEN /\ e.commit >= e.head
+                    /\ inst' = Put(e.i, [s EXCEPT !.status = "LEADER", !.alloc = e.head, !.synced = e.head, !.apply = e.head])
                ELSE inst' = inst
 
 \* C04/C08: offsets are handed out only by a leader, in its term, consecutively
